@@ -145,6 +145,7 @@ Proof.
     destruct (has_key k); [rewrite sarg_key_dealias | rewrite sarg_val_dealias]; reflexivity.
   - (* OEmplace *) cbn [spec_run spec_step]. rewrite sarg_vals_dealias, map_length. reflexivity.
   - (* OInsHint *) cbn [spec_run spec_step]. rewrite sarg_key_dealias, sarg_val_dealias. reflexivity.
+  - (* OInsVia *) cbn [spec_run spec_step]. rewrite sarg_key_dealias, sarg_val_dealias. reflexivity.
 Qed.
 
 (* ---- histories ---- *)
